@@ -38,20 +38,21 @@ Definition vm_fuel : nat := (1000 * 100)%nat.
 Definition vm_graph (ct : amap) (ops : list op) (flags : list bool) : list vm_tok :=
   vm_toks flags (snd (run ct vm_fuel init_state ops)).
 Fixpoint vm_store (content : node -> list node) (isman : node -> bool) (univ : list N) (a : astore)
-         (ops : list (option aop)) : list vm_tok * bool :=
+         (names : list (N * node)) (ops : list (option nop)) : list vm_tok * bool :=
   match ops with
   | [] => ([], true)
   | None :: r =>
-      let (t, ok) := vm_store content isman univ a r in
+      let (t, ok) := vm_store content isman univ a names r in
       let s := a_s a in
       (TBl (vm_srt (o_blobs s)) ::
        map (fun i => TP (vm_known (predecessors_raw (o_graph s) i)) (vm_unk (predecessors_raw (o_graph s) i))) univ ++ t, ok)
   | Some o :: r =>
-      let (a', ok1) := astep content isman vm_fuel a o in
-      let (t, ok2) := vm_store content isman univ a' r in (t, ok1 && ok2)
+      let (names', l) := ntrans1 names o in
+      let (a', ok1) := arun content isman vm_fuel a l in
+      let (t, ok2) := vm_store content isman univ a' names' r in (t, ok1 && ok2)
   end.
-Definition vm_store_case (ct : amap) (mans univ : list N) (ops : list (option aop)) : list vm_tok * bool :=
-  vm_store (ctab ct) (fun x => smem x mans) univ empty_astore ops.
+Definition vm_store_case (ct : amap) (mans univ : list N) (ops : list (option nop)) : list vm_tok * bool :=
+  vm_store (ctab ct) (fun x => smem x mans) univ empty_astore [] ops.
 """
 
 
@@ -116,23 +117,30 @@ def _vm_goal(case, out):
             if k == "S":
                 ops.append("None")
             elif k == "P":
-                ops.append("Some (AOp (PPush %s))" % a)
+                ops.append("Some (NOp (AOp (PPush %s)))" % a)
             elif k == "T":
-                ops.append("Some (AOp (PTag %s))" % a)
+                ops.append("Some (NOp (AOp (PTag %s)))" % a)
             elif k == "U":
-                ops.append("Some (AOp (PUntag %s))" % a)
+                ops.append("Some (NOp (AOp (PUntag %s)))" % a)
             elif k == "X":
-                ops.append("Some (AOp (PDelete %s))" % a)
+                ops.append("Some (NOp (AOp (PDelete %s)))" % a)
             elif k == "G":
-                ops.append("Some (AOp (PGC %s))" % _vm_list([x for x in a.split(".") if x]))
+                ops.append("Some (NOp (AOp (PGC %s)))" % _vm_list([x for x in a.split(".") if x]))
+            elif k == "N":
+                x, _, r = a.partition("=")
+                ops.append("Some (NTag %s %s)" % (x, r))
+            elif k == "M":
+                ops.append("Some (NUntag %s)" % a)
+            elif k == "s":
+                return None
             elif k == "O":
-                ops.append("Some (AOp PReopen)")
+                ops.append("Some (NOp (AOp PReopen))")
             elif k == "F":
-                ops.append("Some (AOp (PForeign %s))" % _vm_list([x for x in a.split(".") if x]))
+                ops.append("Some (NOp (AOp (PForeign %s)))" % _vm_list([x for x in a.split(".") if x]))
             elif k == "Y":
-                ops.append("Some (ASetAuto %s)" % ("true" if a == "1" else "false"))
+                ops.append("Some (NOp (ASetAuto %s))" % ("true" if a == "1" else "false"))
             elif k == "W":
-                ops.append("Some ASaveIndex")
+                ops.append("Some (NOp ASaveIndex)")
             else:
                 return None
         return ("vm_store_case (%s)%%N (%s)%%N (%s)%%N (%s)%%N\n  = ((%s)%%N, true)"
